@@ -10,16 +10,16 @@ CLAIMED = {
           "Generated pipelines of the whole catalogue (all scheduler operators, interval/timer, three executor models, both builds) get an unsubscription injected at a generated position - in part every-cut at every position - after which inputs keep emitting, the clock passes every pending timer and all ready tasks run; no notification may be stamped later than the cut. Exploration within the stated bounds.",
           "Trusts the probe's step stamps and the virtual scheduler; lock-level thread interleavings are the engine-T part's job.",
           "DESIGN.md §3 C02"),
-  "C03": ("engine-P", "model-based differential PBT (proptest tapes + shrinking) against a reference list interpreter; bounded-exhaustive enumeration of single operators",
-          "Random search over operator chains x inputs compared with an independent list-semantics interpreter, plus complete enumeration of every single catalogue operator over all inputs of length <= 4 over {0,1,2} x every terminal. Exploration: a passing run means no counterexample within the stated bounds.",
+  "C03": ("engine-P", "model-based differential PBT (proptest tapes + shrinking) against a reference list interpreter; bounded-exhaustive enumeration of single operators and of all ordered operator pairs",
+          "Random search over operator chains x inputs compared with an independent list-semantics interpreter, plus complete enumeration of every single catalogue operator over all inputs of length <= 4 over {0,1,2} x every terminal and of every ordered pair of operators (compact parameter families) over all inputs of length <= 3 (2.28 M cases, also in the quick tier). Exploration: a passing run means no counterexample within the stated bounds.",
           "Trusts the reference interpreter in harness/src/model.rs (written from the doc comments), the fixed family of predicate/map/fold functions, and that boxing (box_it) is transparent.",
           "DESIGN.md §3 C03"),
   "C01": ("engine-P", "invariant-over-history PBT: generated pipelines x event scripts (proptest tapes + shrinking), grammar oracle on the delivered history",
           "Random search over pipelines of the whole operator catalogue (local and thread-safe builds, every scheduler mode on a virtual clock) driven by scripts with post-terminal events and repeated terminals; the delivered history must match Next* (Error|Complete)?. Exploration within the stated depth/length bounds.",
           "Trusts the probe observer and the AST builder. Note (DESIGN §9): terminals consume the observer by value, so safe Rust already enforces the grammar at any single by-value observer; the check confirms it over the explored space.",
           "DESIGN.md §3 C01"),
-  "C04": ("engine-P", "model-based differential PBT over generated interleavings (proptest tapes + shrinking) plus bounded-exhaustive enumeration of all merges of two short scripts",
-          "Each two-input combinator (both forms) is driven by a generated merged timeline of two hot scripts and compared, notification by notification and step by step, with a reference state machine; every operator x all script pairs of <= 4+4 events over a 2-letter alphabet x every interleaving is enumerated completely. Exploration within those bounds.",
+  "C04": ("engine-P", "model-based differential PBT over generated interleavings (proptest tapes + shrinking) plus bounded-exhaustive enumeration of all merges of two short scripts; differential PBT of combinators composed into pipelines (operators above and below, nested combinators) and of a consumer that feeds the secondary input of with_latest_from from inside its callback",
+          "Each two-input combinator (both forms) is driven by a generated merged timeline of two hot scripts and compared, notification by notification and step by step, with a reference state machine; every operator x all script pairs of <= 4+4 events over a 2-letter alphabet x every interleaving is enumerated completely; combinators inside pipelines (0..2 operators below each input and above, a second combinator nested, three inputs) are compared with the composed reference functions. Exploration within those bounds.",
           "Trusts the reference state machines in harness/src/model.rs; the permissive points are listed in DESIGN.md §7.",
           "DESIGN.md §3 C04"),
   "C05": ("engine-P", "model-based PBT: generated higher-order timelines against an active-set/FIFO-queue simulation plus model-free invariants over tagged items and a live-subscription tracker",
@@ -62,11 +62,11 @@ CLAIMED = {
           "One-shot, subscribing, repeating and future-driven tasks with delays are scheduled through the library's own schedule() path; histories cancel handles before the first poll, while pending on the timer and after completion, under three executor models. Checked: at most once / exactly once when never cancelled, never early, consecutive sequence numbers one period apart, no run after cancel or after is_closed() was true, the product of a subscribing task unsubscribed exactly once iff it ran and was cancelled. Exploration within the stated bounds.",
           "Trusts the virtual clock and VSched (delegates to LocalSpawner::schedule); a cancel racing a running body on another thread is the engine-T part.",
           "DESIGN.md §3 C19"),
-  "C20": ("engine-P", "oracle-from-script PBT (proptest tapes + shrinking) with probes attached to each announced group; bounded-exhaustive enumeration of short inputs; differential check of group_by+flat_map against the reference interpreter",
+  "C20": ("engine-P", "oracle-from-script PBT (proptest tapes + shrinking) with probes attached to each announced group; bounded-exhaustive enumeration of short inputs; differential check of group_by+flat_map against the reference interpreter; group_by.take(n) histories (the announcement of a group ends the stream of groups)",
           "For generated inputs x key functions x terminals (cold and hot sources, Subject and SubjectThreads groups) the global delivery log must equal the source partitioned by key: announcement order, per-item group and step, one terminal per group and for the stream of groups; all inputs of length <= 5 over {0,1,2} are enumerated; flattening the groups must reproduce the source. Exploration within those bounds.",
           "Trusts the list code in props/c20.rs that derives the expected partition from the script; cross-group terminal order is deliberately unconstrained.",
           "DESIGN.md §3 C20"),
-  "C14": ("engine-S", "model-based stateful PBT over source histories interleaved with polls (wake-counting waker) of to_future / collect+to_future / to_stream / the completion-status future; bounded-exhaustive short histories",
+  "C14": ("engine-S", "model-based stateful PBT over source histories interleaved with polls (wake-counting waker) of to_future / collect+to_future / to_stream / the completion-status future; bounded-exhaustive short histories; complete_status inside generated pipelines with its flags sampled after every step against the reference terminal",
           "Histories of next/complete/error/poll over Subject and SubjectThreads sources are checked against the documented outcome table (single item, Empty, MultipleValues, error, all items, stream elements then end, status flags), readiness (a poll after the terminal is Ready, never Pending) and wake-up delivery (a Pending poll's waker is woken by the terminal). All histories of length <= 6 are enumerated. Exploration within those bounds.",
           "Trusts the outcome table in props/c14.rs; the producer/waiter thread interleaving is the engine-T part.",
           "DESIGN.md §3 C14"),
@@ -74,11 +74,11 @@ CLAIMED = {
           "The finalize callback counter is sampled after subscription and after every step: 0 before the first trigger, equal to the number of finalize operators when the triggering step returns, constant afterwards, and the terminal reaches the subscriber before the callback runs; clones subscribed several times are finalized once per subscription. Every trigger order of length <= 5 is enumerated for hot.finalize(). Exploration within those bounds.",
           "Trusts the counting closures and the step sampling in the engine-P executor.",
           "DESIGN.md §3 C15"),
-  "C16": ("engine-P", "PBT over producer/intermediate/cutter chains with instrumented producers (counting iterator, counting stream, virtual-clock interval) and a scheduler-idleness oracle",
+  "C16": ("engine-P", "PBT over producer/intermediate/cutter chains with instrumented producers (counting iterator, counting stream, never-ready stream, virtual-clock interval) and a scheduler-idleness oracle",
           "Generated chains put a periodic, iterator or stream producer behind 0-3 pass-through operators and an early-terminating operator (producer as main input or as second input of every two-input operator); once the subscriber has its terminal the iterator may be pulled at most once more, the stream polled at most once more, and the scheduler must become idle within one period (no live task, no pending timer). Exploration within the stated bounds.",
           "Trusts the pull/poll counters, the Tracked task wrapper (live task count) and the virtual clock's pending-timer count.",
           "DESIGN.md §3 C16"),
-  "C17": ("engine-P + engine-S", "invariant-over-history PBT (is_closed() sampled after every step of generated pipeline cases) and model-based stateful testing of MultiSubscription histories (random + bounded-exhaustive)",
+  "C17": ("engine-P + engine-S", "invariant-over-history PBT (is_closed() sampled after every step of generated pipeline cases) and model-based stateful testing of MultiSubscription histories incl. additions made from inside the teardown (random + bounded-exhaustive)",
           "Pipelines: is_closed() of the returned subscription is sampled after every step; after the first true no notification and no false may follow. Composites: histories of append/clone/unsubscribe/is_closed/child-finishes/retain on both composite types are compared with a model (every child unsubscribed exactly once, late additions torn down at once, all handles closed after unsubscribe, monotone answers); histories up to length 5 are enumerated exhaustively. Exploration within those bounds.",
           "Trusts the probe subscriptions and the composite model in props/c17.rs.",
           "DESIGN.md §3 C17"),
